@@ -130,15 +130,42 @@ func evalC18(in []byte, srcOffs, tgtOffs, span int) (vs []*Violation, accepted b
 func checkC18(r *Run) {
 	r.Assume = []string{"URIs: every accepted string of the C14 space up to the stated length plus the C15 family", "target offset + span <= 65535 (16-bit addressing limit)"}
 	sig := []byte("a1:@;?&=[].")
-	L := r.pick(5, 6)
+	L := r.pick(6, 7)
 	tgts := func(l int) []int { return []int{0, 1, 7, 255, 256, 65535 - l - 3} }
+	light := false
 	run := func(c *enumCtx, s []byte) {
 		n := 0
 		acc := false
-		for _, src := range []int{0, 9, 65535 - len(s), 65535 - len(s) - 2} {
-			for _, tg := range tgts(len(s)) {
+		if light && len(s) > 4+L-1 {
+			// longest strings: views and the relocations around the URI length only (budget)
+			for _, sp := range []int{len(s) - 1, len(s), len(s) + 1} {
+				vs, a := evalC18(s, 0, 7, sp)
+				acc = a
+				if !a {
+					break
+				}
+				n++
+				for _, v := range vs {
+					r.Col.add(v)
+				}
+			}
+			c.st.Evals++
+			if acc {
+				c.st.Nontrivial++
+				c.st.States++
+				c.st.Transitions += int64(n)
+			}
+			return
+		}
+		for si, src := range []int{0, 9, 65535 - len(s), 65535 - len(s) - 2} {
+			for ti, tg := range tgts(len(s)) {
 				for span := 0; span <= len(s)+3; span++ {
 					if tg+span > 65535 {
+						continue
+					}
+					// every span for the first source offset and two target offsets; elsewhere the spans around the
+					// URI length (where acceptance flips) and the extremes
+					if !(si == 0 && ti <= 2) && span != 0 && span < len(s)-2 {
 						continue
 					}
 					vs, a := evalC18(s, src, tg, span)
@@ -166,9 +193,11 @@ func checkC18(r *Run) {
 			c.st.Transitions += int64(n)
 		}
 	}
+	light = true
 	for _, sch := range []string{"sip:", "sips:", "tel:"} {
 		enumStrings(r, sig, 1, L, []byte(sch), run)
 	}
+	light = false
 	fam := c15Family(r.pick(200, 1000))
 	parallelFor(r, len(fam), func(c *enumCtx, i int) { run(c, []byte(fam[i].String())) })
 	if !r.quick() {
